@@ -100,6 +100,7 @@ type common struct {
 var subcommands = map[string]func(common){
 	"tbl-redirect": func(c common) { table(c, tbldrv.RedirectCase) },
 	"tbl-verifier": func(c common) { table(c, tbldrv.VerifierCase) },
+	"tbl-signature": func(c common) { table(c, tbldrv.SignatureCase) },
 }
 
 func table(c common, f func(*tbldrv.Case) tbldrv.M) {
